@@ -360,7 +360,53 @@ def part_arrays(ctx) -> None:
             check_line(ctx, DTM, arr_line, m)
 
 
+def part_byte_sweep(ctx) -> None:
+    """Every value of every payload byte of short packets that report a ratio or a temperature.
+
+    Sampling reaches a particular byte value (say C9 in a demand field) with probability 1/256 per try;
+    the range clause is about *every* value, and these fields are one byte wide, so they are enumerated.
+    """
+    templates: dict[tuple[str, str, int, str], tuple[str, str]] = {}
+    for dtm, line in gen.corpus_frames():
+        p = line.split()
+        code, payload = p[-3], p[-1]
+        if len(payload) > 24:
+            continue
+        key = (code, line[4:6], len(payload), p[-6][:2])
+        if key in templates:
+            continue
+        msg = decode_quiet(dtm, line)
+        if msg is None:
+            continue
+        leaves = {path.rsplit(".", 1)[-1].replace("[]", "") for path, _ in walk(msg.payload)}
+        if leaves & (RATIO_KEYS | TEMP_KEYS):
+            templates[key] = (dtm, line)
+    mine = [t for i, t in enumerate(sorted(templates.values())) if i % ctx.nshards == ctx.shard]
+    if ctx.quick:
+        mine = mine[:6]
+    for dtm, line in mine:
+        head, payload = line.rsplit(" ", 1)
+        for pos in range(0, len(payload), 2):
+            for b in range(256):
+                cand = f"{head} {payload[:pos]}{b:02X}{payload[pos + 2:]}"
+                ctx.ev()
+                msg = decode_quiet(dtm, cand)
+                if msg is None:
+                    continue
+                ctx.count("sweep.decoded")
+                check_line(ctx, dtm, cand, msg)
+        ctx.seen(f"sweep|{line.split()[-3]}|{line[4:6]}|{len(payload) // 2}")
+
+
+def decode_quiet(dtm: str, line: str):  # type: ignore[no-untyped-def]
+    try:
+        return decode(dtm, line)
+    except Exception:  # noqa: BLE001  (rejections and exception classes are C01's subject)
+        return None
+
+
 def run(ctx) -> None:
     part_siblings(ctx)  # first: while the process-wide caches are still cold
     part_lines(ctx)
     part_arrays(ctx)
+    part_byte_sweep(ctx)
